@@ -312,6 +312,8 @@ class Run:
     def getattr(self, base, attr, lineno):
         if isinstance(base, PyConst) and isinstance(base.v, tuple) and base.v[0] == 'module':
             return PyConst(('modattr', base.v[1], attr))
+        if isinstance(base, PyConst) and isinstance(base.v, tuple) and base.v[0] == 'modattr':
+            return PyConst(('modattr', base.v[1] + '.' + base.v[2], attr))
         if isinstance(base, SObj):
             if attr in base.f:
                 return base.f[attr]
@@ -552,6 +554,10 @@ class Run:
                 return v != 0
             if so.is_xr(v):
                 return Or(so.xr_isinf(v), so.xr_val(v) != 0)
+            if v.sort() == so.U() or v.sort() == so.St():
+                # truthiness of a hashable label is unknown (0 and '' are falsy): uninterpreted predicate
+                f = z3.Function('truthy_%s' % v.sort(), v.sort(), B)
+                return f(v)
             raise Unsupported('truthiness of sort %s' % v.sort())
         if isinstance(v, SList):
             return v.n > 0
@@ -765,13 +771,20 @@ class Run:
                 bound[k] = self.ev(v.node, self.unit.globals_env())
         if c.normalize is not None:
             c.normalize(self, bound)
-        s = View(bound)
+        kcall = self.site_ord.get('call:' + q, 0)
+        self.site_ord['call:' + q] = kcall + 1
+        hook = self.unit.sites.get(('call:' + q, kcall))
+        if hook is not None:
+            # delegation site: what the wrapper hands to the callee is itself specified
+            goal = hook(self.view(self.cur_env), bound)
+            self.oblige('site', 'site:call:%s#%d' % (q, kcall), lineno, goal)
+        s = View(bound, {'run': self, 'caller_view': True, 'ghost': self.ghost})
         if c.requires is not None:
             pre = c.requires(s)
             self.oblige('pre', 'pre:%s' % q, lineno, pre)
         if c.pure is not None:
             return c.pure(s)
-        old = View(snap_env(bound))
+        old = View(snap_env(bound), {'run': self, 'caller_view': True, 'ghost': self.ghost})
         for nm in c.modifies:
             v = bound.get(nm)
             if hasattr(v, 'havoc'):
@@ -1178,10 +1191,23 @@ class Run:
         it = LoopIter(None, None, entry)
         self.oblige('loop-init', 'loop%d-init' % k, n.lineno, spec.inv(self.view(env), it))
         names, objs, domonly = self.modified_in(n.body + [n.test], env)
+        for nm in getattr(spec, 'havoc_names', ()):
+            o = env.get(nm) if nm in env else None
+            if o is not None and hasattr(o, 'havoc') and all(o is not p for p in objs):
+                objs.append(o)
+        domonly = [o for o in domonly if all(o is not p for p in objs)]
         self.havoc_for_loop(names, objs, domonly, env)
         self.assume(spec.inv(self.view(env), it))
         self.assume_lemmas(spec, env, it)
         c = self.truth(self.ev(n.test, env), n.lineno)
+        if getattr(spec, 'step_lemma', None) is not None:
+            # the body is exactly the statement the lemma unit `step_lemma` is about: preservation of the
+            # invariant is that unit's obligation, not re-derived here
+            want = spec.step_body_src
+            got = '; '.join(ast.unparse(b) for b in n.body)
+            self.oblige('loop-preserve', 'loop%d-body-is:%s' % (k, want), n.lineno, BoolVal(got == want))
+            self.assume(Not(c))
+            return
         if self.branch(c, n.lineno):
             try:
                 self.exec_block(n.body, env)
